@@ -60,14 +60,18 @@ class Gen:
         x = r.random()
         if sc["vars"] and x < 0.6:
             return ("var", r.choice(sc["vars"]))
-        if x < 0.68 and not divisor:
+        if x < 0.68 and divisor:
+            return self.lit(pow2=True)
+        if x < 0.68:
             self.feat.add("global-const")
             return ("var", r.choice([50, 51, 52]))
-        if x < 0.72 and not divisor and sc["mod"] == "a":
+        if x < 0.72 and (divisor or sc["mod"] != "a"):
+            return self.lit(pow2=divisor)
+        if x < 0.72:
             self.feat.add("attr-const")
             k = r.choice(sorted(ATTR_CONSTS))
             return ("attr", ATTR_CONSTS[k], f"{self.modname['c']}.{k}")
-        if x < 0.724:
+        if x < 0.724 and not divisor:
             self.feat.add("unbound-name")
             return ("var", r.choice([30, 31]))  # never bound: KeyError in the translator, NameError in Python
         return self.lit(pow2=divisor)
@@ -94,7 +98,9 @@ class Gen:
                     b = ("num", Fraction(r.choice([0, 1, 2, 2, 3])), r.random() < 0.2)
             elif op in ("Mod", "FloorDiv"):
                 self.feat.add("mod-floordiv")
-                b = ("num", Fraction(r.choice([2, 3, 2, 4, -2])), False) if r.random() < 0.8 else self.expr(sc, d - 1, True)
+                # divisor of % and // is always a numeric literal: SymPy's Mod.eval mis-simplifies a
+                # divisor sharing a symbolic factor with the dividend (known finding sympy-mod-common-factor)
+                b = ("num", Fraction(r.choice([2, 3, 2, 4, -2, 1, 5] if op == "Mod" else [2, 2, 4, -2, 1])), r.random() < 0.15)
             else:
                 b = self.expr(sc, d - 1, divisor)
             return ("bin", op, a, b)
@@ -103,7 +109,9 @@ class Gen:
         if x < 0.72:
             self.feat.add("ifexp")
             return ("ifexp", self.cond(sc, d - 1), self.expr(sc, d - 1, divisor), self.expr(sc, d - 1, divisor))
-        if x < 0.9 and sc["callees"]:
+        if x < 0.9 and not sc["callees"]:
+            return self.leaf(sc, divisor)
+        if x < 0.9:
             j = r.choice(sc["callees"])
             n = len(self.funcs[j]["params"])
             self.feat.add("call")
@@ -286,14 +294,14 @@ class Gen:
             ),
         )
 
-    def function(self, idx: int, n_params: int, mod: str, callees: list[int]) -> dict:
+    def function(self, idx: int, n_params: int, mod: str, callees: list[int], small: bool = False) -> dict:
         r = self.rng
         params = list(range(1, n_params + 1))
         sc = {"vars": list(params), "params": params, "assigned": set(), "callees": callees, "mod": mod}
         body: list = []
         if r.random() < 0.1:
             body.append(("doc",))
-        body += self.block(sc, 2 if r.random() < 0.7 else 3, r.randint(0, 3), must_return=True)
+        body += self.block(sc, 2 if (small or r.random() < 0.8) else 3, r.randint(0, 2 if small else 3), must_return=True)
         f = {"params": params, "mod": mod, "body": body, "name": f"f{self.case_id}_{idx}"}
         return f
 
